@@ -391,6 +391,41 @@ TEXT_CHECKS = {
     'nfa_accepts': lambda t: nb.nfa_accepts(t['nfa'], t['word']),
     'regexp_accepts': lambda t: nb.regexp_accepts(t['regexp'], t['word']),
 }
+# checkers that read the reference answer from a FILE.  The harness writes the file just before the call, always under the
+# same path within one interpreter (so a session rewrites it with other contents, as a teacher editing an answer does),
+# and sets its modification time from a simulated file clock that advances a quarter of a second per write: several
+# versions of the file fall into the same second, deterministically.  The file is removed again after the call.
+_FILE_CLOCK = [0]
+
+
+def _with_answer_file(t, fn):
+    import os
+    import tempfile
+    d = os.path.join(os.environ.get('VERIF_SCRATCH') or tempfile.gettempdir(), 'verif-c19-files-%d' % os.getpid())
+    os.makedirs(d, exist_ok=True)
+    path = os.path.join(d, 'answer.' + t['answer_ext'])
+    _FILE_CLOCK[0] += 1
+    stamp = 1_700_000_000 + 0.25 * _FILE_CLOCK[0]
+    try:
+        with open(path, 'w', encoding='utf8') as f:
+            f.write(t['answer_text'])
+        os.utime(path, (stamp, stamp))
+        return fn(path)
+    finally:
+        try:
+            os.remove(path)
+            os.rmdir(d)
+        except OSError:
+            pass
+
+
+FILE_CHECKS = {
+    'check_dfa_language_from_file': lambda t: _with_answer_file(t, lambda p: nb.check_dfa_language_from_file(t['dfa'], p, 3)),
+    'check_nfa_language_from_file': lambda t: _with_answer_file(t, lambda p: nb.check_nfa_language_from_file(t['nfa'], p, 3)),
+    'check_regexp_language_from_file': lambda t: _with_answer_file(t, lambda p: nb.check_regexp_language_from_file(t['regexp'], p, 3)),
+    'check_cfg_language_from_file': lambda t: _with_answer_file(t, lambda p: nb.check_cfg_language_from_file(t['cfg'], p, 3)),
+}
+TEXT_CHECKS.update(FILE_CHECKS)
 # entry points that RETURN their answer (a printed word list, a bool): the value itself is the outcome
 TEXT_VALUES = {'dfa_language', 'nfa_language', 'pda_language', 'tm_language', 'cfg_language', 'regexp_language', 'nfa_accepts', 'regexp_accepts'}
 
@@ -552,6 +587,8 @@ def _text_check(rng, made, sigma):
     name = rng.choice(sorted(TEXT_CHECKS))
     wrong = rng.random() < 0.4
     t = {}
+    if name in FILE_CHECKS:
+        return _file_check(rng, made, sigma, name, wrong, dfas, nfas, cfgs)
     if name in NEW_TEXT_CHECKS:
         return _text_check_more(rng, made, sigma, name, wrong, dfas, nfas, cfgs)
     if name in ('check_dfa_minimal', 'check_dfa_complement', 'check_dfa_reverse', 'check_dfa_language_from_words', 'check_dfa2regexp', 'check_dfa_syntax'):
@@ -660,6 +697,44 @@ def _text_check(rng, made, sigma):
                 acc, rej = rej, acc
             t['acc'] = ' '.join(w or 'ε' for w in acc) or 'ε'
             t['rej'] = ' '.join(w or 'ε' for w in rej) or 'zzz'
+    return {'op': 'text_check', 'name': name, 'texts': t}
+
+
+def _file_check(rng, made, sigma, name, wrong, dfas, nfas, cfgs):
+    """The student's answer is a text, the reference answer a file of another (or the same) formalism; a wrong answer is
+    a perturbed / unrelated object."""
+    rxs = [m for m in made if m['kind'] == 'regexp' and rrx.size(m['tree']) <= 30]
+    t = {}
+    if 'dfa' in name or 'nfa' in name or 'regexp' in name:
+        if not dfas:
+            return None
+        D = rng.choice(dfas)
+        other = _perturb_dfa(rng, D) if wrong else D
+        if len(other['delta']) != len(D['delta']):
+            other = D
+        ext = rng.choice(['dfa', 'dfa', 'nfa'])
+        t['answer_ext'] = ext
+        if ext == 'dfa':
+            t['answer_text'] = render_dfa(other)
+        else:
+            t['answer_text'] = render_nfa({'Q': other['Q'], 'Sigma': other['Sigma'], 'q0': other['q0'], 'F': other['F'], 'eps': '_',
+                                           'delta': [[q, a, [tt]] for q, a, tt in other['delta']]})
+        if 'dfa' in name:
+            t['dfa'] = render_dfa(D)
+        elif 'nfa' in name:
+            t['nfa'] = render_nfa({'Q': D['Q'], 'Sigma': D['Sigma'], 'q0': D['q0'], 'F': D['F'], 'eps': '_', 'delta': [[q, a, [tt]] for q, a, tt in D['delta']]})
+        else:
+            if not rxs:
+                return None
+            t['regexp'] = render_rx(rng.choice(rxs)['tree'])
+    else:
+        if not cfgs:
+            return None
+        G = rng.choice(cfgs)
+        H = rng.choice(cfgs) if wrong else G
+        t['cfg'] = render_cfg(G)
+        t['answer_ext'] = 'cfg'
+        t['answer_text'] = render_cfg(H)
     return {'op': 'text_check', 'name': name, 'texts': t}
 
 
@@ -798,9 +873,20 @@ def gen_session(rng, n_calls):
                     merged[key].append(item)
         s['delta'] = [[p, a_, u, T] for (p, a_, u), T in merged.items()]
         make(s)
-    if rng.random() < 0.7:
+    special_tm = None
+    r0 = rng.random()
+    if r0 < 0.45:
         s, _r = gentm.rename(gentm.abstract_tm(rng, nmax=3), rng)
         make(s)
+    elif r0 < 0.6:
+        s, _r = gentm.rename(gentm.scanner_tm(rng), rng)      # read-only, right-moving, still working on the blanks after the input
+        make(s)
+        special_tm = len(kinds) - 1
+    elif r0 < 0.8:
+        # words of one length of which one is given up (runs for ever) and one is accepted after most of the step budget
+        s, _r = gentm.rename(gentm.slow_or_loop_tm(rng, budget=rng.choice([100, 1000, 1000])), rng)
+        make(s)
+        special_tm = len(kinds) - 1
     for i in range(rng.randint(2, 3)):
         a = gencfg.abstract_cnf(rng, 1, 3, k) if i == 0 else gencfg.abstract_cfg(rng, 1, 4, k)
         s, _r = gencfg.rename(a, rng)
@@ -847,6 +933,9 @@ def gen_session(rng, n_calls):
         # make sure the unusual object is actually enumerated
         steps.append({'op': 'dfa_words_up_to_n', 'args': [special_dfa], 'params': {'n': rng.randint(4, 5)}})   # two sequences of 3 symbols spell the same word
         steps.append({'op': 'generate_language_dfa', 'args': [special_dfa], 'params': {'n': 2}})
+    if special_tm is not None:
+        steps.append({'op': 'tm_words_up_to_n', 'args': [special_tm], 'params': {'n': rng.randint(1, 3)}})
+        steps.append({'op': 'generate_language_tm', 'args': [special_tm], 'params': {'n': rng.randint(1, 2)}})
     while sum(1 for s in steps if s['op'] not in ('make', 'edit')) < n_calls:
         if rng.random() < 0.05:
             # object-lifetime history: a made object is edited in place (by hand or by an *_in_place library function)
@@ -905,18 +994,30 @@ def gen_cases(rng, tier, rnd):
 # ------------------------------------------------------------------ execution (inside the forked child)
 
 def _ambient():
+    """Everything a later call could depend on that is not an argument: the two library knobs and the interpreter-wide
+    settings a library call has no business leaving changed (recursion limit, working directory, module search path,
+    warning filters, environment, the object installed as sys.stdout)."""
+    import os
+    import warnings
     from gambatools.global_settings import GambaTools
-    return [GambaTools.pda_epsilon_closure_max_iterations, GambaTools.enable_logging]
+    return [GambaTools.pda_epsilon_closure_max_iterations, GambaTools.enable_logging, sys.getrecursionlimit(), os.getcwd(),
+            hx(list(sys.path)), len(warnings.filters), hx(sorted(os.environ.items())), sys.getswitchinterval()]
 
 
 def _restore(k):
+    import os
     from gambatools.global_settings import GambaTools
-    GambaTools.pda_epsilon_closure_max_iterations, GambaTools.enable_logging = k
+    GambaTools.pda_epsilon_closure_max_iterations, GambaTools.enable_logging = k[0], k[1]
+    sys.setrecursionlimit(k[2])
+    try:
+        os.chdir(k[3])
+    except OSError:
+        pass
 
 
 def _size_ok(o):
     Q = getattr(o, 'Q', None)
-    if Q is not None and len(Q) > MAX_STATES:
+    if Q is not None and len(Q) > (1200 if kind_of(o) == 'tm' else MAX_STATES):     # a machine that idles for most of the step budget has that many states
         return False
     R = getattr(o, 'R', None)
     if R is not None and len(R) > 300:
@@ -933,6 +1034,7 @@ def _run_call(env, o, args, params, ctx):
         pv = [params[p] for p in o.params]
         st, val, ticks = call(env, o.fn, *args, *pv, budget=BUDGET)
     finally:
+        ctx['stdout_replaced'] = sys.stdout is not buf
         sys.stdout = old
     ctx['stdout'] = buf.getvalue()
     if st == 'timeout':
@@ -992,17 +1094,21 @@ def run_case(case, env):
         if name == 'text_check':
             buf = io.StringIO()
             old = sys.stdout
+            knobs_before = _ambient()
             sys.stdout = buf
             try:
                 st, val, ticks = call(env, TEXT_CHECKS[step['name']], step['texts'], budget=BUDGET)
             finally:
+                stdout_replaced = sys.stdout is not buf
                 sys.stdout = old
             ctx['stdout'] = buf.getvalue()
             d = _text_digest(step['name'], st, val, ctx)
             site = step['name']
-            if _ambient() != [1000, bool(case.get('logging'))]:
-                out['viol'].append(viol('ambient-setting-changed', site, {'step': idx, 'after': _ambient()}))
-                _restore([1000, bool(case.get('logging'))])
+            if _ambient() != knobs_before or knobs_before[:2] != [1000, bool(case.get('logging'))]:
+                out['viol'].append(viol('ambient-setting-changed', site, {'step': idx, 'before': knobs_before, 'after': _ambient()}))
+                _restore([1000, bool(case.get('logging'))] + knobs_before[2:])
+            if stdout_replaced:
+                out['viol'].append(viol('ambient-setting-changed', site, {'step': idx, 'what': 'sys.stdout was replaced and not put back'}))
             if idx in solo:
                 out['solo_inputs'][str(idx)] = {'op': 'text_check', 'name': step['name'], 'texts': step['texts'], 'args': [], 'params': {}, 'sigma': case['sigma']}
             out['hist']['verdict_' + d.split(':')[0]] = out['hist'].get('verdict_' + d.split(':')[0], 0) + 1
@@ -1052,6 +1158,8 @@ def run_case(case, env):
             if _ambient() != knobs_before:
                 out['viol'].append(viol('ambient-setting-changed', site, {'step': idx, 'before': knobs_before, 'after': _ambient()}))
                 _restore(knobs_before)
+            if ctx.get('stdout_replaced'):
+                out['viol'].append(viol('ambient-setting-changed', site, {'step': idx, 'what': 'sys.stdout was replaced and not put back'}))
             if idx in solo and d not in ('timeout',) and not d.startswith('exc:RecursionError'):
                 # shortest possible history: the very same call again, same objects, same process
                 reps = 9 if idx % 5 == 0 and ticks < 200_000 else 1      # now and then a longer history of the same call
